@@ -40,6 +40,8 @@ BAD_HEADERS = [
     ("pseudo", [(b":status", b"500")]), ("pseudo-path", [(b":path", b"/x")]),
     ("crlf-val", [(b"x-a", b"1\r\nx-evil: 2")]), ("lf-val", [(b"x-a", b"1\nx-evil: 2")]), ("cr-val", [(b"x-a", b"1\rx")]),
     ("nul-val", [(b"x-a", b"a\x00b")]), ("crlf-name", [(b"x-a\r\nx-evil", b"1")]), ("nul-name", [(b"x\x00a", b"1")]),
+    ("crlf-val-memoryview", [(b"x-a", memoryview(b"1\r\nx-evil: 2"))]), ("nul-val-bytearray", [(b"x-a", bytearray(b"a\x00b"))]),
+    ("crlf-name-memoryview", [(memoryview(b"x-a\r\nx-evil"), b"1")]),
 ]
 OK_HEADERS = [("bytearray", [(bytearray(b"x-a"), bytearray(b"1"))]), ("memoryview", [(b"x-a", memoryview(b"1"))]),
               ("long", [(b"x-a", b"v" * 5000)]), ("empty-val", [(b"x-a", b"")])]
@@ -447,7 +449,7 @@ def _class(t, i):
     ty = m["type"]
     if t["sub"] and ("headers" in m or "path" in m) and (t["sub"] in [n for n, _ in BAD_HEADERS] or t["sub"].startswith("accept:") or t["sub"] == "push-path-bytes"):
         sub = t["sub"].replace("accept:", "")
-        if sub in ("crlf-val", "lf-val", "cr-val", "nul-val", "crlf-name", "nul-name"):
+        if sub in ("crlf-val", "lf-val", "cr-val", "nul-val", "crlf-name", "nul-name", "crlf-val-memoryview", "nul-val-bytearray", "crlf-name-memoryview"):
             return "ctl-bytes-header"
         if sub in ("val-str", "name-str", "val-int", "val-none"):
             return "non-bytes-header"
